@@ -187,6 +187,7 @@ const (
 	oWRONLY = 0x1
 	oRDWR   = 0x2
 	oCREATE = 0x40
+	oEXCL   = 0x80
 	oTRUNC  = 0x200
 )
 
@@ -199,6 +200,12 @@ func OpenFile(name string, flag int, perm fs.FileMode) (*MemRWSC, error) {
 		return nil, err
 	}
 	f, ok := files[name]
+	if ok && flag&oCREATE != 0 && flag&oEXCL != 0 {
+		return nil, &fs.PathError{Op: "open", Path: name, Err: fs.ErrExist}
+	}
+	if dirs[name] {
+		return nil, &fs.PathError{Op: "open", Path: name, Err: fs.ErrInvalid} // EISDIR
+	}
 	if !ok {
 		if flag&oCREATE == 0 || (hier && !dirs[parentOf(name)]) {
 			return nil, &fs.PathError{Op: "open", Path: name, Err: fs.ErrNotExist}
